@@ -164,7 +164,7 @@ def render(nl, rng=None, layout="plain", order=None, comments=False, one_per_sta
         choices = [" ", "\t", "\n", "  ", " \n ", "\t "] + ([""] if opt else [])
         s = rng.choice(choices)
         if comments and rng.random() < 0.08:
-            s += rng.choice(["/* c */", "// note\n", "/* multi\n line */"]) + (" " if not opt else "")
+            s += rng.choice(["/* c */", "// note\n", "/* multi\n line */", "/** doc **/", "/***/", "/**/", "/* a * b */", "/* x **/"]) + (" " if not opt else "")
         return s
 
     def sep():
@@ -216,7 +216,7 @@ def render(nl, rng=None, layout="plain", order=None, comments=False, one_per_sta
     if order == "shuffle" and rng is not None:
         rng.shuffle(body)
     if comments and rng is not None:
-        body.insert(rng.randrange(len(body) + 1), "  // a comment line\n")
+        body.insert(rng.randrange(len(body) + 1), rng.choice(["  // a comment line\n", "  /** a block comment closed by two stars **/\n", "  /***/\n"]))
     out += body
     out.append("endmodule\n")
     text = "".join(out)
